@@ -1,6 +1,8 @@
 package props
 
 import (
+	"context"
+	"errors"
 	"fmt"
 	"math/rand"
 	"strings"
@@ -43,7 +45,7 @@ func init() {
 			}
 			return []runner.Phase{
 				{Name: "scenarios", Variant: "race", Cases: n, Run: c14case, CaseTimeout: 120 * time.Second,
-					Required: []string{"executes_checked", "batch_entries_checked", "concurrent_first_use", "prepare_failures_scripted", "unprepared_scripted", "wrong_arity_calls", "small_cache_scenarios"}},
+					Required: []string{"executes_checked", "batch_entries_checked", "concurrent_first_use", "prepare_failures_scripted", "unprepared_scripted", "wrong_arity_calls", "small_cache_scenarios", "deadline_scenarios", "callers_ended_by_their_own_deadline"}},
 			}
 		},
 	})
@@ -71,6 +73,7 @@ type c14state struct {
 	entries    int64
 	unprep     int64
 	newGenExec int64
+	ownDeadline int64
 }
 
 func (st *c14state) problem(key, what string) {
@@ -274,6 +277,19 @@ func c14case(c *runner.Ctx, i int) {
 	if executors > 1 {
 		c.Add("concurrent_first_use", 1)
 	}
+	// some executors run under a context deadline that is shorter than the node's PREPARE latency: whoever of them
+	// starts the PREPARE gives up, which must not take the executors waiting on the same PREPARE down with it
+	// (only with a cache that holds every statement: with evictions every execution prepares again, and the
+	// scripted latency, which the node applies one request at a time, would add up to the driver's own timeout)
+	deadlineCallers := executors > 1 && r.Intn(3) == 0 && cfg.MaxPreparedStmts >= nn*ns+1
+	if deadlineCallers {
+		c.Add("deadline_scenarios", 1)
+		for _, n := range nodes {
+			n.mu.Lock()
+			n.delay = time.Duration(12+r.Intn(20)) * time.Millisecond
+			n.mu.Unlock()
+		}
+	}
 	rounds := 1 + r.Intn(4)
 	var wg sync.WaitGroup
 	var emu sync.Mutex
@@ -289,14 +305,26 @@ func c14case(c *runner.Ctx, i int) {
 				<-start
 				for k := 0; k < rounds; k++ {
 					var err error
+					ctx := context.Background()
+					hasDeadline := deadlineCallers && e%3 == 0
+					if hasDeadline {
+						var cancel context.CancelFunc
+						ctx, cancel = context.WithTimeout(ctx, time.Duration(1+rr.Intn(6))*time.Millisecond)
+						defer cancel()
+					}
 					if version >= 2 && rr.Intn(5) == 0 {
-						b := sess.NewBatch(gocql.UnloggedBatch)
+						b := sess.NewBatch(gocql.UnloggedBatch).WithContext(ctx)
 						b.Query(c14stmt(j), fmt.Sprintf("tag%d", j), k)
 						j2 := rr.Intn(ns)
 						b.Query(c14stmt(j2), fmt.Sprintf("tag%d", j2), k)
 						c.Guard("ExecuteBatch", func() { err = sess.ExecuteBatch(b) })
 					} else {
-						c.Guard("Query.Exec", func() { err = sess.Query(c14stmt(j), fmt.Sprintf("tag%d", j), k).Exec() })
+						c.Guard("Query.Exec", func() { err = sess.Query(c14stmt(j), fmt.Sprintf("tag%d", j), k).WithContext(ctx).Exec() })
+					}
+					if hasDeadline && err != nil && (errors.Is(err, context.DeadlineExceeded) || strings.Contains(err.Error(), "deadline exceeded")) {
+						// this caller's own deadline
+						atomic.AddInt64(&st.ownDeadline, 1)
+						continue
 					}
 					if err != nil {
 						emu.Lock()
@@ -376,6 +404,7 @@ func c14case(c *runner.Ctx, i int) {
 			anyDrop = true
 		}
 	}
+	c.Add("callers_ended_by_their_own_deadline", atomic.LoadInt64(&st.ownDeadline))
 	c.Add("executes_checked", atomic.LoadInt64(&st.execs))
 	c.Add("batch_entries_checked", atomic.LoadInt64(&st.entries))
 	c.Add("unprepared_answers", atomic.LoadInt64(&st.unprep))
